@@ -1030,6 +1030,7 @@ package edwards25519
 //@ func (*Point).MultiScalarMult(v, scalars, points)
 //@   leak none
 //@   mode group
+//@   opt elemalias=v:points:3
 //@   entrysplit len(scalars) in 0..4
 //@   entrysplit len(points) in 0..4
 //@   requires [bounded] len(scalars) < 4 && len(points) < 4
@@ -1045,6 +1046,7 @@ package edwards25519
 //@ func (*Point).VarTimeMultiScalarMult(v, scalars, points)
 //@   leak vartime operation named VarTime or used only by them (exempt)
 //@   mode group
+//@   opt elemalias=v:points:2 quickparts=distinct
 //@   entrysplit len(scalars) in 0..3
 //@   entrysplit len(points) in 0..3
 //@   requires [bounded] len(scalars) < 3 && len(points) < 3
